@@ -56,7 +56,7 @@ def render(k: dict, N, twin: bool) -> str:
 
 
 def module_source(k: dict, N) -> tuple[str, int, int]:
-    head = "\n".join(k.get("imports", [])) + "\n\n" + textwrap.dedent(k.get("helpers", "")) + "\n\n"
+    head = "import vf.kernels._xhfix  # noqa: F401\n" + "\n".join(k.get("imports", [])) + "\n\n" + textwrap.dedent(k.get("helpers", "")) + "\n\n"
     a = render(k, N, False)
     line_a = head.count("\n") + 1
     b = render(k, N, True)
